@@ -17,7 +17,7 @@ CONFIGS = [
 
 
 def setup(src):
-    e2v.build_driver("dirblock", ["theories/DirBlock/DirBlock.vo", "theories/DirBlock/DxSearch.vo"], ["dirblock_model"])
+    e2v.build_driver("dirblock", ["theories/DirBlock/DirBlock.vo", "theories/DirBlock/DxSearch.vo", "theories/DirBlock/Nlink.vo"], ["dirblock_model"])
 
 
 def dir_blocks(fs, ino):
@@ -267,6 +267,13 @@ def one_case(src, mexe, idx, seed, tier):
         rc, out = e2v.sh([T("debugfs/debugfs"), "-w", "-R", cmd, img], env=env, timeout=120)
         err = "\n".join(l for l in out.split("\n")[1:] if l.strip() and not l.startswith("Allocated inode"))
         ops.append(cmd)
+        if expect[0] == "add" and expect[3] in ("write", "symlink", "mknod") and not err and r.random() < 0.25:
+            # an attribute too large for the inode body: the object owns an attribute block, which its removal has to release
+            big = os.path.join(WORK, "bigval")
+            if not os.path.exists(big):
+                open(big, "wb").write(b"v" * 600)
+            e2v.sh([T("debugfs/debugfs"), "-w", "-R", "ea_set -f %s %s/%s user.big" % (big, expect[1], expect[2]), img], env=env, timeout=120)
+            ops.append("ea_set -f <600 bytes> %s/%s user.big" % (expect[1], expect[2]))
         fs = Fs(img)
         dino = lookup(fs, d)
         if expect[0] == "ls":
@@ -405,6 +412,44 @@ def dx_directed_case(src, mexe, which, k):
     return recipe, problems, {"corr": 0, "corr_bad": [], "nops": len(names) + len(later), "maxdir": len(names) + len(later), "dx_rows": n_, "dx_bad": b_, "shape": shape}
 
 
+def nlink_tie(src, mexe):
+    """ext2fs_mkdir's bookkeeping of the parent's link count at and around EXT2_LINK_MAX, with and without dir_nlink, vs
+    the extracted mkdir_parent (the proved rule; 65000 real sub-directories take minutes and belong to the thorough tier)"""
+    env = e2v.tool_env(src)
+    T = lambda p_: os.path.join(src, p_)
+    rows, bad = 0, []
+    for feat in ("dir_nlink", "^dir_nlink"):
+        img = os.path.join(WORK, "nlink_%s.img" % feat.strip("^"))
+        e2v.sh([T("misc/mke2fs"), "-q", "-F", "-t", "ext4", "-b", "1024", "-O", feat, "-N", "256", img, "4M"], env=env, timeout=120)
+        e2v.sh([T("debugfs/debugfs"), "-w", "-R", "mkdir p", img], env=env, timeout=60)
+        for n in (2, 3, 1, 64998, 64999, 65000, 65001, 65535):
+            e2v.sh([T("debugfs/debugfs"), "-w", "-f", "-", img], input=("sif p links_count %d\nmkdir p/x%d\n" % (n, n)).encode(), env=env, timeout=60)
+            fs = Fs(img)
+            pi = lookup(fs, "/p")
+            made = ("x%d" % n).encode() in listing(fs, pi)
+            got = str(fs.inode(pi)["links"]) if made else "EMLINK"
+            if not made and fs.inode(pi)["links"] != n:
+                got = "refused, count %d" % fs.inode(pi)["links"]
+            want = ask(mexe, "NL %d %d" % (0 if feat.startswith("^") else 1, n)).strip()
+            rows += 1
+            if got != want:
+                bad.append({"feature": feat, "parent_links_count": n, "after ext2fs_mkdir": got, "model": want})
+        os.unlink(img)
+    return rows, bad
+
+
+def nlink_real(src):
+    """65010 real sub-directories in one directory: the stored count is what e2fsck expects"""
+    env = e2v.tool_env(src)
+    T = lambda p_: os.path.join(src, p_)
+    img = os.path.join(WORK, "nlink_real.img")
+    e2v.sh([T("misc/mke2fs"), "-q", "-F", "-t", "ext4", "-b", "4096", "-N", "70000", "-O", "^has_journal,^metadata_csum", img, "600M"], env=env, timeout=300)
+    e2v.sh([T("debugfs/debugfs"), "-w", "-f", "-", img], input=("mkdir p\ncd p\n" + "".join("mkdir s%d\n" % i for i in range(65010))).encode(), env=env, timeout=1800)
+    rc, out = e2v.sh([T("e2fsck/e2fsck"), "-fn", img], env=env, timeout=1800)
+    os.unlink(img)
+    return [] if rc == 0 else ["65010 sub-directories in /p, e2fsck -fn exits %d: %s" % (rc, " | ".join(l for l in out.split("\n") if "?" in l or "should be" in l)[:300])]
+
+
 def hash_tie(src, seed, n):
     """the reader's own directory hashes (lib/extfmt.py dirhash: legacy / half_md4 / tea x signed / unsigned char) against
     debugfs dx_hash, which calls the library's ext2fs_dirhash2 with the filesystem's algorithm, flags and seed"""
@@ -449,7 +494,7 @@ def run(res, replay=None):
     src = e2v.ensure_build()
     pr = e2v.coq_property("C10")
     res.add_proof(pr)
-    mexe = e2v.build_driver("dirblock", ["theories/DirBlock/DirBlock.vo", "theories/DirBlock/DxSearch.vo"], ["dirblock_model"])
+    mexe = e2v.build_driver("dirblock", ["theories/DirBlock/DirBlock.vo", "theories/DirBlock/DxSearch.vo", "theories/DirBlock/Nlink.vo"], ["dirblock_model"])
     res.cov["trusted_base"] = e2v.TRUSTED_COMMON + [
         "lib/extfmt.py dir_entries()/dir_block_entries(): the check's own linear reading of every directory block (htree interior nodes are read as empty records)",
         "debugfs write/mkdir/symlink/mknod/ln/unlink/rm/rmdir are the front ends to ext2fs_link/ext2fs_unlink/ext2fs_mkdir; the reference is a Python dict per directory",
@@ -493,6 +538,16 @@ def run(res, replay=None):
     res.cov["correspondence"]["htree_compared"] = "for every name of every indexed directory at the end of a sequence (incl. removed and re-created names whose hash is a leaf's lower bound): the leaf that holds the name vs the leaf the extracted dx_leaf reaches from the decoded index for the name's hash (hash by debugfs dx_hash)"
     res.add_obligation("block model = directory blocks after every link/unlink", not cbad)
     res.add_obligation("every name sits in the leaf the index search model reaches for its hash", not xbad)
+    nrows, nbad = nlink_tie(src, mexe)
+    res.cov["correspondence"]["link_count_rows"] = nrows
+    res.cov["correspondence"]["link_count_mismatches"] = len(nbad)
+    res.add_obligation("the parent's link count after ext2fs_mkdir = mkdir_parent (EXT2_LINK_MAX, dir_nlink)", not nbad)
+    for c in nbad[:2]:
+        res.violation("correspondence", {"link_count": c, "note": "ext2fs_mkdir leaves a parent link count other than the model's (theorems mkdir_link_count_*): e2fsck pass 4 expects 1 beyond EXT2_LINK_MAX links and the 16-bit field wraps at 65536"},
+                      has_input=True, signature="c10nlink:%s:%s" % (c["feature"], c["parent_links_count"]))
+    if tier != "quick" and not replay:
+        for pmsg in nlink_real(src):
+            bad.append(({"config": "ext4 4k, 70000 inodes", "ops": ["mkdir p; 65010 x mkdir p/sN"], "case_index": -1}, [pmsg]))
     hrows, hbad = hash_tie(src, seed, 25 if tier == "quick" else 400)
     res.cov["correspondence"]["hash_rows"] = hrows
     res.cov["correspondence"]["hash_mismatches"] = len(hbad)
